@@ -60,7 +60,12 @@ def write_fasta(path, recs, wrap=None, names=None, gz=False, crlf=False, header_
             out.append(r)
     eol = "\r\n" if crlf else "\n"
     data = (eol.join(out) + eol).encode()
-    if gz:
+    if gz == "multi" and len(data) > 2:
+        # several gzip members in one file (bgzip, `cat a.gz b.gz`): cut anywhere, also inside a line
+        cut = 1 + (sum(data) + len(data)) % (len(data) - 1)
+        with open(path, "wb") as f:
+            f.write(gzip.compress(data[:cut]) + gzip.compress(data[cut:]))
+    elif gz:
         with gzip.open(path, "wb") as f:
             f.write(data)
     else:
@@ -302,7 +307,7 @@ def c02_cli(ctx, broken):
             recs2 = ["".join(ch.lower() if rnd.random() < 0.4 else ch for ch in r) for r in recs2]
             if rc:
                 recs2 = [revcomp(r) if rnd.random() < 0.5 else r for r in recs2]
-            gz = rnd.random() < 0.5
+            gz = rnd.choice([False, False, True, "multi"])
             wrap = rnd.choice([None, 1, 7, 60, 10 ** 6])
             crlf = rnd.random() < 0.3
             extra = rnd.choice(["", " a description with spaces", "\tx=1"])
@@ -359,7 +364,8 @@ def c02_deep_cli(ctx, broken):
     rnd = random.Random(ctx.seed * 2750159 + 17)
     thorough = ctx.tier == "thorough"
     evals = nontriv = 0
-    for (n, threads) in ([(72, 8), (90, 16), (40, 4), (71, 8)] if thorough else [(72, 8), (25, 2)]):
+    # the last instance has more samples than a byte can count
+    for (n, threads) in ([(72, 8), (90, 16), (40, 4), (71, 8), (520, 16)] if thorough else [(72, 8), (25, 2), (300, 4)]):
         k = rnd.choice([9, 15, 21])
         base = rand_genome(rnd, 60)
         smp = [mutate(rnd, base, rnd.randint(0, 3)) for _ in range(n)]
@@ -2180,6 +2186,8 @@ def make_map_cli(prop, nquick, nthorough):
             k = rnd.choice([31, 33])
             nct = 65540 + rnd.randint(0, 80)
             contigs = ["".join(rnd.choice("ACGT") for _ in range(rnd.randint(k + 3, k + 11))) for _ in range(nct)]
+            # one contig longer than 2^16 bases among them (positions inside a contig of any width)
+            contigs[rnd.randrange(nct)] = "".join(rnd.choices("ACGT", k=70000 + rnd.randint(0, 999)))
             ref = os.path.join(d, "ref.fa")
             with open(ref, "w") as f:
                 f.write("".join(f">c{i}\n{c}\n" for i, c in enumerate(contigs)))
